@@ -267,163 +267,71 @@ def run_scenario(name, log, outdir):
             f.write("syscall trace of recovery (file, call):\n" + "\n".join("%s %s" % e for e in ev if e[0] != "pwrite64" or True)[-4000:])
             f.write("\nverdict: %s\n" % ("VIOLATED: no fsync(ht) between the last pwrite(ht) and ftruncate(wal)" if violated else "holds / not observed"))
         return violated, tr
-    if name == "c04_seglog_dir_fsync":
-        st = os.path.join(outdir, name + ".strace")
-        subprocess.run(["strace", "-f", "-y", "-e", "trace=openat,pwrite64,write,fsync,fdatasync", "-o", st, b, "c04_two_commits", d],
-                       stdout=subprocess.PIPE, stderr=subprocess.STDOUT, text=True)
-        if not os.path.exists(st):
-            return None, tr
-        ev = []
+    if name in ("c04_seglog_dir_fsync", "c17_rollback_prune_order"):
+        # two drivers: two ordinary commits (first segment), and five commits whose deltas exceed a segment
+        # with a retained log length of 1 (every commit rolls over to a new segment and prunes the oldest)
+        problems, creates_seen, unlinks_seen, evs = [], 0, 0, []
         dbdir = os.path.abspath(d)
-        for ln in strace_lines(st):
-            m = re.search(r"openat\([^,]*, \"([^\"]*rollback[^\"]*\.log)\", ([A-Z_|]+)", ln)
-            if m and "O_CREAT" in m.group(2):
-                ev.append(("create", os.path.basename(m.group(1))))
+        for driver in ("c04_two_commits", "c04_rollover"):
+            st = os.path.join(outdir, name + "-" + driver + ".strace")
+            subprocess.run(["strace", "-f", "-y", "-e", "trace=openat,unlink,unlinkat,pwrite64,write,fsync,fdatasync", "-o", st, b, driver, d],
+                           stdout=subprocess.PIPE, stderr=subprocess.STDOUT, text=True)
+            if not os.path.exists(st):
                 continue
-            m = re.search(r"(pwrite64|write|fsync|fdatasync)\(\d+<([^>]*)>", ln)
-            if m:
-                path = m.group(2)
-                c = "sync" if m.group(1) in ("fsync", "fdatasync") else "write"
-                if os.path.abspath(path) == dbdir:
-                    ev.append((c, "<dir>"))
-                elif os.path.basename(path) == "meta" or "rollback" in os.path.basename(path):
-                    ev.append((c, os.path.basename(path)))
-        problems = []
-        creates = [i for i, e in enumerate(ev) if e[0] == "create"]
-        for ci in creates:
-            nxt_meta = next((j for j in range(ci, len(ev)) if ev[j] == ("write", "meta")), len(ev))
-            seg = ev[ci:nxt_meta]
-            if ("sync", "<dir>") not in seg:
-                problems.append("segment %s created but the directory is not fsynced before the next meta write" % ev[ci][1])
-            if not any(e[0] == "sync" and "rollback" in e[1] for e in seg):
-                problems.append("segment %s: record not fsynced before the next meta write" % ev[ci][1])
-        with open(tr, "w") as f:
-            f.write("scenario %s: two commits with rollback enabled under strace\n" % name)
-            f.write("\n".join("%s %s" % e for e in ev)[-4000:])
-            f.write("\nproblems: %s\n" % (problems or "none"))
-        if not creates:
-            return None, tr
-        return bool(problems), tr
-    if name in ("c14_fault_sweep", "c14_fault_sweep_rollback"):
-        import faultsweep
-        wd = os.path.join(BUILD, "scen", name)
-        os.makedirs(wd, exist_ok=True)
-        violated, problems = faultsweep.run(b, wd, tr, only_files=r"rollback" if name.endswith("rollback") else None)
-        return violated, tr
-    if name == "c20_lock_order":
-        st = os.path.join(outdir, name + ".strace")
-        subprocess.run(["strace", "-f", "-y", "-e", "trace=openat,flock", "-o", st, b, "c20_fresh_and_reopen", d],
-                       stdout=subprocess.PIPE, stderr=subprocess.STDOUT, text=True)
-        if not os.path.exists(st):
-            return None, tr
-        dbdir = os.path.abspath(d)
-        ev, problems, locked, nlocks = [], [], False, 0
-        for ln in strace_lines(st):
-            m = re.search(r"flock\(\d+<([^>]*)>, ([A-Z_|]+)\)\s+= (-?\d+)", ln)
-            if m and os.path.dirname(m.group(1)) == dbdir:
-                if "LOCK_EX" in m.group(2) and m.group(3) == "0":
-                    locked = True
-                    nlocks += 1
-                elif "LOCK_UN" in m.group(2):
-                    locked = False
-                ev.append("flock %s %s = %s" % (os.path.basename(m.group(1)), m.group(2), m.group(3)))
-                continue
-            m = re.search(r"openat\([^,]*, \"([^\"]*)\", ([A-Z_|]+)", ln)
-            if m and os.path.dirname(os.path.abspath(m.group(1))) == dbdir and os.path.basename(m.group(1)) != ".lock":
-                ev.append("openat %s %s%s" % (os.path.basename(m.group(1)), m.group(2), "" if locked else "   <-- lock not held"))
-                if not locked:
-                    problems.append("%s opened (%s) while the directory lock is not held" % (os.path.basename(m.group(1)), m.group(2)))
-        with open(tr, "w") as f:
-            f.write("scenario %s: create, commit, drop, reopen, commit, drop under strace (openat / flock inside the db directory)\n" % name)
-            f.write("\n".join(ev)[-6000:])
-            f.write("\nproblems: %s\n" % (problems or "none"))
-        if nlocks == 0:
-            return None, tr
-        return bool(problems), tr
-    if name == "c20_refused_open":
-        # the kernel's answer "somebody else holds the lock" is injected (strace fault injection on the
-        # first flock call: EAGAIN); everything else is the real code. (a) on an empty directory (create
-        # path), (b) on an existing database (open path): the open must be refused, nothing inside the
-        # directory may be removed, renamed, truncated or opened for writing, and the directory survives.
-        import shutil
-        problems, notes = [], []
-        observed = 0
-        for variant in ("empty", "existing"):
-            dv = d + "-" + variant
-            shutil.rmtree(dv, ignore_errors=True)
-            if variant == "empty":
-                os.makedirs(dv)
-            else:
-                subprocess.run([b, "c20_fresh_and_reopen", dv], stdout=subprocess.DEVNULL, stderr=subprocess.DEVNULL)
-            before = sorted((fn, os.path.getsize(os.path.join(dv, fn))) for fn in os.listdir(dv))
-            st = os.path.join(outdir, name + "-" + variant + ".strace")
-            p = subprocess.run(["strace", "-f", "-y", "-e", "trace=flock,openat,unlink,unlinkat,rmdir,rename,renameat,renameat2,truncate,ftruncate",
-                                "-e", "inject=flock:error=EAGAIN:when=1", "-o", st, b, "c20_try_open", dv],
-                               stdout=subprocess.PIPE, stderr=subprocess.STDOUT, text=True)
-            if "child-open: REFUSED" not in p.stdout or not os.path.exists(st):
-                notes.append("%s: open was not refused under the injected EAGAIN (%s)" % (variant, p.stdout.strip()[-120:]))
-                if "child-open: OPENED" in p.stdout:
-                    problems.append("%s: open succeeded although flock reported EAGAIN" % variant)
-                    observed += 1
-                continue
-            observed += 1
-            dbdir = os.path.abspath(dv)
-            failed = False
+            ev = []
             for ln in strace_lines(st):
-                if re.search(r"flock\(.*\(INJECTED\)", ln):
-                    failed = True
+                if "verif-commit-begin" in ln:
+                    ev.append(("begin", ""))
                     continue
-                if not failed:
+                m = re.search(r"openat\([^,]*, \"([^\"]*rollback[^\"]*\.log)\", ([A-Z_|]+)", ln)
+                if m and "O_CREAT" in m.group(2):
+                    ev.append(("create", os.path.basename(m.group(1))))
                     continue
-                m = re.search(r"(unlink|unlinkat|rmdir|rename|renameat|renameat2|truncate|ftruncate)\(([^)]*)\)", ln)
-                if m and dbdir in m.group(2):
-                    problems.append("%s: after the refused lock: %s(%s)" % (variant, m.group(1), m.group(2)[:120]))
-                m = re.search(r"openat\([^,]*, \"([^\"]*)\", ([A-Z_|]+)", ln)
-                if m and os.path.dirname(os.path.abspath(m.group(1))) == dbdir and re.search(r"O_WRONLY|O_RDWR|O_CREAT|O_TRUNC", m.group(2)):
-                    problems.append("%s: after the refused lock: %s opened with %s" % (variant, os.path.basename(m.group(1)), m.group(2)))
-            if not os.path.isdir(dv):
-                problems.append("%s: the directory is gone after the refused open" % variant)
+                m = re.search(r"unlink(?:at)?\((?:[^,\"]*, )?\"([^\"]*rollback[^\"]*\.log)\"", ln)
+                if m:
+                    ev.append(("unlink", os.path.basename(m.group(1))))
+                    continue
+                m = re.search(r"(pwrite64|write|fsync|fdatasync)\(\d+<([^>]*)>", ln)
+                if m:
+                    path = m.group(2)
+                    c = "sync" if m.group(1) in ("fsync", "fdatasync") else "write"
+                    if os.path.abspath(path) == dbdir:
+                        ev.append((c, "<dir>"))
+                    elif os.path.basename(path) == "meta" or "rollback" in os.path.basename(path):
+                        if not (ev and ev[-1] == (c, os.path.basename(path))):
+                            ev.append((c, os.path.basename(path)))
+            evs.append("--- driver %s" % driver)
+            evs += ["%s %s" % e for e in ev]
+            if name == "c04_seglog_dir_fsync":
+                creates = [i for i, e in enumerate(ev) if e[0] == "create"]
+                creates_seen += len(creates)
+                for ci in creates:
+                    nxt_meta = next((j for j in range(ci, len(ev)) if ev[j] == ("write", "meta")), len(ev))
+                    seg = ev[ci:nxt_meta]
+                    if ("sync", "<dir>") not in seg:
+                        problems.append("%s: segment %s created but the directory is not fsynced before the next meta write" % (driver, ev[ci][1]))
+                    if not any(e[0] == "sync" and "rollback" in e[1] for e in seg):
+                        problems.append("%s: segment %s: record not fsynced before the next meta write" % (driver, ev[ci][1]))
             else:
-                after = sorted((fn, os.path.getsize(os.path.join(dv, fn))) for fn in os.listdir(dv) if fn != ".lock")
-                if after != [x for x in before if x[0] != ".lock"]:
-                    problems.append("%s: directory contents changed by the refused open: %s -> %s" % (variant, before, after))
-            shutil.rmtree(dv, ignore_errors=True)
+                # nothing of the retained log may be unlinked between the start of a commit and the moment
+                # its meta page is durable
+                phase = "post"
+                for e in ev:
+                    if e[0] == "begin":
+                        phase = "pre"
+                    elif e == ("sync", "meta"):
+                        phase = "post"
+                    elif e[0] == "unlink":
+                        unlinks_seen += 1
+                        if phase == "pre":
+                            problems.append("%s: %s unlinked before the commit's meta page was written and fsynced" % (driver, e[1]))
         with open(tr, "w") as f:
-            f.write("scenario %s: open with the first flock() answered EAGAIN by fault injection (empty directory, existing database)\n" % name)
-            f.write("\n".join(notes) + "\nproblems: %s\n" % (problems or "none"))
-        if not observed:
+            f.write("scenario %s: commits with the rollback log enabled under strace\n" % name)
+            f.write("\n".join(evs)[-8000:])
+            f.write("\nproblems: %s\n" % (problems or "none"))
+        if (name == "c04_seglog_dir_fsync" and not creates_seen) or (name == "c17_rollback_prune_order" and not unlinks_seen):
             return None, tr
         return bool(problems), tr
-    if name == "c20_release_order":
-        st = os.path.join(outdir, name + ".strace")
-        subprocess.run(["strace", "-f", "-y", "-e", "trace=write,flock", "-o", st, b, "c20_drop_with_inflight_io", d],
-                       stdout=subprocess.PIPE, stderr=subprocess.STDOUT, text=True)
-        if not os.path.exists(st):
-            return None, tr
-        ev = []
-        for ln in strace_lines(st):
-            if "verif-io-complete" in ln:
-                ev.append("completion")
-            elif "verif-commit-returned" in ln:
-                ev.append("commit-returned")
-            elif "verif-handle-dropped" in ln:
-                ev.append("handle-dropped")
-            elif re.search(r"flock\(\d+<[^>]*\.lock>, LOCK_UN", ln):
-                ev.append("unlock")
-        with open(tr, "w") as f:
-            f.write("scenario %s: commit fails on its first hash-table write completion, the other completions are held back; drop(handle) under strace\n" % name)
-            f.write("\n".join(ev))
-            if "unlock" not in ev or "commit-returned" not in ev:
-                f.write("\nverdict: not observed\n")
-                return None, tr
-            inflight = ev[ev.index("commit-returned"):].count("completion")
-            late = ev[ev.index("unlock"):].count("completion")
-            f.write("\ncompletions outstanding when commit returned: %d; delivered after flock(LOCK_UN): %d\n" % (inflight, late))
-            if inflight == 0:
-                f.write("verdict: not observed (nothing was in flight)\n")
-                return None, tr
-            f.write("verdict: %s\n" % ("VIOLATED: the directory lock was released while I/O was still in flight" if late else "holds"))
-        return late > 0, tr
     if name == "c04_commit_order":
         st = os.path.join(outdir, name + ".strace")
         subprocess.run(["strace", "-f", "-y", "-e", "trace=pwrite64,write,fsync,fdatasync,ftruncate", "-o", st, b, "c04_two_commits", d],
